@@ -24,7 +24,8 @@ TRUSTED = ["z3 (only prunes here: k and the scenario are finite choices)", "fake
 ASSUMPTIONS = ["signals arriving inside library code (between fork and the return of Popen()) and at bytecode granularity are outside the claim",
                "frames of finalisers (__del__) are injection points: CPython runs handlers there and discards what they raise"]
 
-SRC = os.path.realpath("/repo/src/conductor") + os.sep
+import conductor as _c
+SRC = os.path.dirname(os.path.realpath(_c.__file__)) + os.sep
 _LCACHE = {}
 
 
